@@ -405,7 +405,7 @@ static void zoo_root(long id, std::uint64_t seed, int rounds)
     body_guard g(id);
     for (int round = 0; round < rounds; ++round)
     {
-        int scen = int(r.below(7));
+        int scen = int(r.below(8));
         if (scen == 0)
         {
             // recycling wave: one child per stack class after the other, each awaited before the next is
@@ -559,6 +559,55 @@ static void zoo_root(long id, std::uint64_t seed, int rounds)
             t.join();
             g.resume_();
             if (stage->load() != 4) monitor("task " + std::to_string(cid) + " joined before its body finished");
+        }
+        else if (scen == 6 && !g_no_join)    // (needs valid pika::thread ids, see scenario 5)
+        {
+            // several tasks blocked on ONE facility, released by one call: k children wait on a latch that the parent
+            // counts down once they are all suspended there, then the same k children block in acquire() on one semaphore
+            // that the parent releases with a single release(k).  Every child must run again (both wake-up loops of the
+            // facilities go through condition_variable::notify_one's "more waiters?" answer).
+            int k = 2 + int(r.below(3));
+            auto gate = std::make_shared<pika::latch>(1);
+            auto sem = std::make_shared<pika::counting_semaphore<>>(0);
+            auto done = std::make_shared<pika::counting_semaphore<>>(0);
+            auto at = std::make_shared<std::atomic<int>>(0);
+            auto asleep = std::make_shared<pika::counting_semaphore<>>(0);
+            std::vector<pika::thread> kids;
+            std::vector<long> cids;
+            for (int i = 0; i < k; ++i)
+            {
+                long cid = new_task_id();
+                cids.push_back(cid);
+                kids.emplace_back([=] {
+                    body_guard cg(cid);
+                    cg.pause();
+                    at->fetch_add(1);
+                    gate->wait();
+                    at->fetch_add(1);
+                    sem->acquire();
+                    cg.resume_();
+                    done->release();
+                });
+            }
+            g.pause();
+            // the OS thread releases `asleep` when child i is suspended with the shared stage counter >= want
+            auto wait_all_asleep = [&](int want) {
+                for (int i = 0; i < k; ++i)
+                {
+                    {
+                        std::lock_guard<std::mutex> l(g_flag_mtx);
+                        g_watches.push_back(watch{kids[std::size_t(i)].native_handle(), at, want, asleep, -1});
+                    }
+                    asleep->acquire();
+                }
+            };
+            wait_all_asleep(k);
+            gate->count_down(1);
+            wait_all_asleep(2 * k);
+            sem->release(k);
+            for (int i = 0; i < k; ++i) done->acquire();
+            for (auto& t : kids) t.join();
+            g.resume_();
         }
         else
         {
